@@ -415,9 +415,10 @@ fn handle_item(
             // Evaluate in any style, so an error in an interpolation
             // does not depend on the style.
             let compressed = scope.get_format().is_compressed();
-            let c = c.evaluate(scope)?;
-            if !compressed {
-                dest.push_comment(c.take_value().into());
+            let c = c.evaluate(scope)?.take_value();
+            // Only preserved (`/*!`) comments are kept when compressed.
+            if !compressed || c.starts_with('!') {
+                dest.push_comment(c.into());
             }
         }
         Item::None => (),
